@@ -59,7 +59,7 @@ deriving DecidableEq, Repr
 
 /-- statements of `GeckoAsyncSpa.disconnect` (only the first two matter to the manager; the rest must be known) -/
 inductive DOp
-  | setConnFalse | raiseEvent (e : Event) | structReset | cancelTasks | closeProtocol | clearTransport | unwatchAll
+  | setConnFalse | raiseEvent (e : Event) | structReset | cancelTasks | closeProtocol | closeTransport | clearTransport | unwatchAll
 deriving DecidableEq, Repr
 
 /-- statements of `async_locate_spas` / `async_connect_to_spa` -/
